@@ -187,6 +187,11 @@ pub trait Family: Sync {
         vec![]
     }
     fn components(&self) -> Value;
+    /// Does the property speak about termination / crashes at all? If not, a worker process that dies or hangs
+    /// inside a simulated run is recorded in the evidence but is not a violation of that property.
+    fn death_is_violation(&self, prop: &str) -> bool {
+        matches!(prop, "C04" | "C05" | "C11" | "C19")
+    }
     /// The base scenario of index `idx`, without executing it.
     fn describe(&self, prop: &str, tier: Tier, seed: u64, idx: u64) -> Value;
 }
